@@ -402,6 +402,8 @@ func runC06(c *core.Ctx) {
 	checkReplyChannelPerAttempt(c, "R6.6")
 	c.Rule("R6.7", "the request rebuilt for a retry asks for every key still owed (shared with C13): one reply per requested key", 1)
 	checkRebuildKeepsEveryEntry(c, "R6.7")
+	c.Rule("R6.11", "every single-reply method of the batching handler returns the error (and response) the pool's request function gave it", 8)
+	checkOutcomeReturned(c, "R6.11")
 	c.Rule("R6.10", "the table of replies still owed is a multiset (populated by counting): an entry is deleted only when its count is one, otherwise decremented (shared with C13)", 2)
 	checkOwedMultiset(c, "R6.10")
 	c.Rule("R6.9", "the table recovery consults loses a reply's entry only when that reply is handed over (shared with C13): otherwise a connection cut inside a reply's body ends the call with the zero response - an empty hit, success - instead of an error", 2)
@@ -820,7 +822,7 @@ type opqState struct {
 	pending string // position of a command written since the opaque last advanced ("" = none)
 }
 
-func (s *opqState) Key() string        { return s.pending + "/" + s.f.Key() }
+func (s *opqState) Key() string       { return s.pending + "/" + s.f.Key() }
 func (s *opqState) Copy() ssax.PState { return &opqState{s.f.Clone(), s.pending} }
 
 // checkOpaquesDistinct (R6.3): no two commands of one batch carry the same opaque. Path exploration of the serialiser
